@@ -382,7 +382,7 @@ def gen_gfa2(rng, k):
         if astyle == "mixed":
             astyle = rng.choice(["star", "match", "asym", "trace"])
         if astyle == "trace":
-            aln = ",".join(str(rng.randint(0, 9)) for _ in range(rng.randint(1, 3)))
+            aln = ",".join(str(rng.randint(0, 9)) for _ in range(rng.randint(2, 3)))
         elif astyle == "star":
             aln = "*"
         else:
